@@ -1087,10 +1087,15 @@ func handleMessage(peer *Peer, m protocol.Message) error {
 			if peer.metadataExt == 0 || isCongested(peer) {
 				return nil
 			}
-			offset := int(m.Piece) * 16 * 1024
-			l := 16 * 1024
-			if offset+l > len(peer.Info) {
-				l = len(peer.Info) - offset
+			chunks := (len(peer.Info) + 16*1024 - 1) / (16 * 1024)
+			offset := 0
+			l := 0
+			if m.Piece < uint32(chunks) {
+				offset = int(m.Piece) * 16 * 1024
+				l = 16 * 1024
+				if offset+l > len(peer.Info) {
+					l = len(peer.Info) - offset
+				}
 			}
 			var err error
 			if l > 0 {
